@@ -472,6 +472,8 @@ def _run(ix, R):
             fns.extend(fn for fn in ix.functions_in(rel) if fn.name in ('initialize_profile', 'initialize_chemistry', 'fill_atmosphere', 'compute_mu_profile', 'determine_active_inactive'))
     api_obligations(ix, R, '6.api', fns, 'profile construction')
     tokens_obligation(ix, R)
+    from rules.common import loop_closures
+    loop_closures(ix, R, '2.closure', [CH], 'the chemistry and gas profiles (fill-ratio and per-layer getters / setters)')
     # ---- 7. weight
     site = UU + '::calculate_weight'
     with R.guard('7.weight', 'ALG', site, 'weight'):
@@ -561,6 +563,37 @@ except IndexError:
 except ValueError:
     V_peek = 1
 ''', 'V_elems[V_tok] += V_peek'], under='*')
+    # a bracketed group: the multiplier after the bracket applies to the group, not to what was parsed before it
+    with R.guard('7.group', 'ARG', site, 'bracket groups'):
+        f = ix.func(site)
+        fl = mkflow(ix, site)
+        me = ix.func(UU + '::merge_elements')
+        ms = calls(fl, 'merge_elements')
+        why = []
+        ngroup = 0
+        for e in ms:
+            got = bind_call(e, me.params())
+            rec = lambda rf: rf is not None and rf.mentions(
+                lambda a: a.head == 'call' and a.extra and a.extra[0] == 'fn:split_molecule_elements')
+            if rec(got.get(me.params()[0])):
+                why.append('%s: the group parsed inside the brackets is passed as the accumulated formula (the multiplier '
+                           'then scales what came before the bracket)' % unparse(e.node)[:70])
+            if rec(got.get(me.params()[1])):
+                ngroup += 1
+                if len(me.params()) > 2 and me.params()[2] not in got:
+                    why.append('%s: the count after the bracket is not applied' % unparse(e.node)[:70])
+        if not ngroup and not why:
+            raise AnalysisError('no merge_elements call takes the bracket group as the merged-in formula')
+        R.check('7.group', 'ARG', site,
+                'merge_elements(accumulated, group parsed inside the brackets, count after the bracket): the count '
+                'multiplies the group', not why, key='; '.join(why), detail='; '.join(why), loc=f.loc())
+    site = UU + '::merge_elements'
+    with R.guard('7.merge', 'ALG', site, 'merge'):
+        f = ix.func(site)
+        from sa.helpers import need
+        ps = f.params()
+        need(R, '7.merge', 'ALG', site, 'merged count = count in the first formula + count in the second x factor, over the union of elements', f,
+             ['return {V_e: %s.get(V_e, 0) + %s.get(V_e, 0) * %s for V_e in set(%s) | set(%s)}' % (ps[0], ps[1], ps[2], ps[0], ps[1])])
 
 
 def _getter(ix, R, site, attr):
